@@ -17,6 +17,9 @@ import (
 	"github.com/named-data/ndnd/std/ndn"
 	spec "github.com/named-data/ndnd/std/ndn/spec_2022"
 	"github.com/named-data/ndnd/std/object"
+	rdr "github.com/named-data/ndnd/std/ndn/rdr_2024"
+	sec "github.com/named-data/ndnd/std/security"
+	"github.com/named-data/ndnd/std/utils"
 )
 
 // ---------------------------------------------------------------------------------------------
@@ -456,6 +459,9 @@ func runE2ECase(t *testing.T, o *out, r *rand.Rand) {
 	if r.Intn(3) == 0 {
 		runE2EConcurrent(o, r, rl, prod, cons, name)
 	}
+	if r.Intn(3) == 0 {
+		runE2EBadProducer(o, r, rl, st, cons, name)
+	}
 	o.pf("END\n")
 	o.flush()
 	doing("stopping the consumer client (its run loop must take the stop signal)")
@@ -546,4 +552,88 @@ func runE2EConcurrent(o *out, r *rand.Rand, rl *relay, prod, cons *object.Client
 		c.mu.Unlock()
 		o.pf("LATE 0\n")
 	}
+}
+
+// runE2EBadProducer: the producer's store holds packets no honest Produce would write — a first segment without
+// FinalBlockId, with a FinalBlockId of another component type, with a FinalBlockId that is rejected as a segment count
+// (1e8, 2^32, 2^63-1, 2^63, 2^64-1), or a metadata packet naming a version that does not exist. The consumer must report
+// exactly one completion, an error, and nothing after it.
+func runE2EBadProducer(o *out, r *rand.Rand, rl *relay, st *storeUnder, cons *object.Client, name enc.Name) {
+	kind := r.Intn(8)
+	obj := append(append(enc.Name{}, name...), enc.NewStringComponent(enc.TypeGenericNameComponent, fmt.Sprintf("bad%d", kind)))
+	ver := uint64(3)
+	base := append(append(enc.Name{}, obj...), enc.NewVersionComponent(ver))
+	signer := sec.NewSha256Signer()
+	put := func(nm enc.Name, content []byte, fb *enc.Component) {
+		cfg := &ndn.DataConfig{ContentType: utils.IdPtr(ndn.ContentTypeBlob), FinalBlockID: fb}
+		d, err := spec.Spec{}.MakeData(nm, cfg, enc.Wire{content}, signer)
+		if err != nil {
+			o.pf("BAD makedata %v\n", err)
+			return
+		}
+		st.st.Put(nm, ver, d.Wire.Join())
+	}
+	seg0 := append(append(enc.Name{}, base...), enc.NewSegmentComponent(0))
+	var fb *enc.Component
+	cname := base
+	switch kind {
+	case 0:
+		fb = nil
+	case 1:
+		c := enc.NewVersionComponent(0)
+		fb = &c
+	case 2, 3, 4, 5, 6:
+		c := enc.NewSegmentComponent([]uint64{100000000, 1 << 32, 1<<63 - 1, 1 << 63, 1<<64 - 1}[kind-2])
+		fb = &c
+	default:
+		// metadata packet that names a version nobody published
+		c := enc.NewSegmentComponent(0)
+		fb = &c
+		ghost := append(append(enc.Name{}, obj...), enc.NewVersionComponent(ver+777))
+		md := rdr.MetaData{Name: ghost, FinalBlockID: c.Bytes()}
+		mname := append(append(enc.Name{}, obj...), enc.NewStringComponent(enc.TypeKeywordNameComponent, "metadata"),
+			enc.NewVersionComponent(ver+777), enc.NewSegmentComponent(0))
+		put(mname, md.Encode().Join(), fb)
+		cname = obj
+	}
+	if kind < 7 {
+		put(seg0, []byte{1, 2, 3}, fb)
+	}
+	rl.mu.Lock()
+	rl.mode = "none"
+	rl.forwarder = false
+	rl.mu.Unlock()
+	doing("consumer of %s against a misbehaving producer (kind %d)", cname, kind)
+	var mu sync.Mutex
+	var obs []cbObs
+	done := make(chan struct{}, 64)
+	cons.Consume(cname, func(s *object.ConsumeState) bool {
+		ob := cbObs{progress: s.Progress(), max: "-", chunk: hx(s.Content()), err: errCode(s.Error())}
+		if s.IsComplete() {
+			ob.complete = 1
+		}
+		mu.Lock()
+		obs = append(obs, ob)
+		mu.Unlock()
+		if ob.complete == 1 {
+			done <- struct{}{}
+		}
+		return true
+	})
+	select {
+	case <-done:
+	case <-time.After(30 * time.Minute):
+	}
+	mu.Lock()
+	nAtDone := len(obs)
+	mu.Unlock()
+	time.Sleep(60 * time.Second)
+	// nothing is published under that name as far as the oracle is concerned: exactly one completion, with an error
+	o.pf("CONSUME %s every badproducer%d 0 0 0\n", nameStr(cname), kind)
+	mu.Lock()
+	for i, ob := range obs {
+		o.pf("CB %d %d %s %d %s %s\n", i, ob.complete, ob.err, ob.progress, ob.max, ob.chunk)
+	}
+	o.pf("LATE %d\n", len(obs)-nAtDone)
+	mu.Unlock()
 }
